@@ -199,6 +199,7 @@ pub fn worker<L: Lane>(a: &WorkerArgs) -> i32 {
     let mut violations: Vec<Value> = Vec::new();
     let mut sig_counts: BTreeMap<String, u64> = BTreeMap::new();
     let started = std::time::Instant::now();
+    let mut current = std::fs::File::create(format!("{}.current", a.out)).expect("create .current file");
     let mut idx = a.shard;
     while idx < a.runs {
         if let Some(only) = a.only_run {
@@ -211,9 +212,17 @@ pub fn worker<L: Lane>(a: &WorkerArgs) -> i32 {
             idx += a.shards;
             continue;
         }
-        // the driver attributes a crash of this process to the last BEGIN line
-        println!("BEGIN {idx}");
-        let _ = std::io::stdout().flush();
+        // the driver attributes a crash of this process to the run recorded here (rewritten in place:
+        // millions of runs must not produce millions of log lines)
+        {
+            use std::io::{Seek, SeekFrom};
+            let _ = current.seek(SeekFrom::Start(0));
+            let _ = current.write_all(format!("BEGIN {idx:020}\n").as_bytes());
+        }
+        if std::env::var("VERIF_TEST_ABORT_AT").is_ok_and(|v| v == idx.to_string()) {
+            // self-test of the crash-attribution path only
+            std::process::abort();
+        }
         let seed = run_seed(a.verif_seed, L::ID, a.tier, idx);
         let mut rng = Rng::new(seed);
         let sc = L::draw(&mut rng, a.tier, idx);
